@@ -37,6 +37,9 @@ func checkC07(ctx *Ctx, r *Report) {
 	c07ReferenceByBareName(ctx, r)
 	c07SecondHunt(ctx, r)
 	c07ThirdHunt(ctx, r)
+	c07ObjectSetsKeyedByIdentity(ctx, r)
+	c08UnionReuseComparesBranches(ctx, r)    // two inputs of one package: the union of one silently takes the place of the other's
+	c09PythonMethodNamesSpareModules(ctx, r) // the names spared by the Python builders do not depend on unrelated inputs
 	c05GeneratedNamesUnique(ctx, r)
 	c07CallbackState(ctx, r)
 	c18Payloads(ctx, r)
@@ -1758,4 +1761,154 @@ func c07ThirdHunt(ctx *Ctx, r *Report) {
 	}
 	r.Count("passes resolving references while the visitor rewrites the schemas", n)
 	r.Floor("passes resolving references while the visitor rewrites the schemas", 2)
+}
+
+// c07ObjectSetsKeyedByIdentity: `RefType.String()` is "<package>.<object>" — a display string: neither package names nor
+// object names exclude dots (`k8s` + `io.Pod`, `k8s.io` + `Pod`). A set of objects that spans the schemas and decides
+// what a pass removes, keeps or inlines — or under which object the API reference lists a method — keyed by that string
+// lets an unrelated package change what is generated for another. Decided: in every type of internal/ast/compiler
+// whose methods delete objects (Objects.Filter / Objects.Remove), and in the API-reference collector, no map or ordered
+// map is read or written under a key computed by RefType.String() (directly, or through a local variable).
+// The per-function `visited` / `expanding` sets of the jennies (cycle guards) are not claimed.
+func c07ObjectSetsKeyedByIdentity(ctx *Ctx, r *Report) {
+	refT := ctx.LookupType("internal/ast", "RefType")
+	if refT == nil {
+		r.Undecided("anchor lost: ast.RefType")
+		return
+	}
+	isRefString := func(info *types.Info, e ast.Expr) bool {
+		c, ok := ast.Unparen(e).(*ast.CallExpr)
+		if !ok {
+			return false
+		}
+		f := callee(info, c)
+		if f == nil || f.Name() != "String" {
+			return false
+		}
+		sig, _ := f.Type().(*types.Signature)
+		return sig != nil && sig.Recv() != nil && namedOf(sig.Recv().Type()) == refT
+	}
+	scan := func(p *packages.Package, owner string, fds []*ast.FuncDecl) (sites int, bad []string) {
+		info := p.TypesInfo
+		for _, fd := range fds {
+			joined := map[types.Object]bool{}
+			ast.Inspect(fd.Body, func(m ast.Node) bool {
+				if as, ok := m.(*ast.AssignStmt); ok && len(as.Lhs) == 1 && len(as.Rhs) == 1 && isRefString(info, as.Rhs[0]) {
+					if id, ok := as.Lhs[0].(*ast.Ident); ok {
+						joined[objOf(info, id)] = true
+					}
+				}
+				return true
+			})
+			isJoined := func(e ast.Expr) bool {
+				if isRefString(info, e) {
+					return true
+				}
+				id, ok := ast.Unparen(e).(*ast.Ident)
+				return ok && joined[objOf(info, id)]
+			}
+			ast.Inspect(fd.Body, func(m ast.Node) bool {
+				switch x := m.(type) {
+				case *ast.IndexExpr:
+					if _, isMap := info.TypeOf(x.X).Underlying().(*types.Map); isMap {
+						sites++
+						if isJoined(x.Index) {
+							bad = append(bad, fmt.Sprintf("%s[%s] at %s", exprString(x.X), exprString(x.Index), ctx.Pos(x.Pos())))
+						}
+					}
+				case *ast.CallExpr:
+					f := callee(info, x)
+					if f == nil || f.Pkg() == nil || !strings.HasSuffix(f.Pkg().Path(), "/internal/orderedmap") || len(x.Args) == 0 {
+						return true
+					}
+					switch f.Name() {
+					case "Set", "Has", "Get", "Remove":
+						sites++
+						if isJoined(x.Args[0]) {
+							bad = append(bad, fmt.Sprintf("%s at %s", exprString(x), ctx.Pos(x.Pos())))
+						}
+					}
+				}
+				return true
+			})
+		}
+		return sites, bad
+	}
+	n := 0
+	if cp := ctx.Pkg("internal/ast/compiler"); cp == nil {
+		r.Undecided("anchor lost: internal/ast/compiler")
+	} else {
+		eng := newEffectsEngine(ctx)
+		for _, pass := range allPasses(ctx, eng) {
+			fds := methodsOf(ctx, pass.named)
+			deletes := false
+			for _, fd := range fds {
+				ast.Inspect(fd.Body, func(m ast.Node) bool {
+					if c, ok := m.(*ast.CallExpr); ok {
+						if sel, ok := ast.Unparen(c.Fun).(*ast.SelectorExpr); ok && (sel.Sel.Name == "Filter" || sel.Sel.Name == "Remove") && strings.HasSuffix(exprString(sel.X), ".Objects") {
+							deletes = true
+						}
+					}
+					return true
+				})
+			}
+			if !deletes {
+				continue
+			}
+			n++
+			sites, bad := scan(cp, pass.named.Obj().Name(), fds)
+			r.Check(len(bad) == 0, "siblings/object-sets-keyed-by-identity", "compiler."+pass.named.Obj().Name()+" keys its sets of objects", pass.named.Obj().Pos(), fmt.Sprintf("%d map accesses, none under RefType.String()", sites),
+				pass.named.Obj().Name()+" deletes objects and decides with a set keyed by RefType.String() ("+strings.Join(bad, "; ")+"): `k8s` + `io.Pod` and `k8s.io` + `Pod` are one entry — adding the unrelated package k8s.io removes, keeps or inlines an object of package k8s")
+		}
+	}
+	if jp := ctx.Pkg("internal/jennies/common"); jp == nil {
+		r.Undecided("anchor lost: internal/jennies/common")
+	} else if ct := ctx.LookupType("internal/jennies/common", "APIReferenceCollector"); ct == nil {
+		r.Undecided("anchor lost: common.APIReferenceCollector")
+	} else {
+		// the maps that span packages: those whose key is not already under a per-package map
+		var fds []*ast.FuncDecl
+		for _, fd := range methodsOf(ctx, ct) {
+			fds = append(fds, fd)
+		}
+		info := jp.TypesInfo
+		var bad []string
+		sites := 0
+		for _, fd := range fds {
+			joined := map[types.Object]bool{}
+			ast.Inspect(fd.Body, func(m ast.Node) bool {
+				if as, ok := m.(*ast.AssignStmt); ok && len(as.Lhs) == 1 && len(as.Rhs) == 1 && isRefString(info, as.Rhs[0]) {
+					if id, ok := as.Lhs[0].(*ast.Ident); ok {
+						joined[objOf(info, id)] = true
+					}
+				}
+				return true
+			})
+			ast.Inspect(fd.Body, func(m ast.Node) bool {
+				ix, ok := m.(*ast.IndexExpr)
+				if !ok {
+					return true
+				}
+				if _, isMap := info.TypeOf(ix.X).Underlying().(*types.Map); !isMap {
+					return true
+				}
+				// `m[pkg][key]`: the outer index already separates the packages
+				if _, nested := ast.Unparen(ix.X).(*ast.IndexExpr); nested {
+					return true
+				}
+				sites++
+				key := ast.Unparen(ix.Index)
+				id, isIdent := key.(*ast.Ident)
+				if isRefString(info, key) || (isIdent && joined[objOf(info, id)]) {
+					bad = append(bad, fmt.Sprintf("%s[%s] at %s", exprString(ix.X), exprString(ix.Index), ctx.Pos(ix.Pos())))
+				}
+				return true
+			})
+		}
+		n++
+		r.Check(len(bad) == 0, "siblings/object-sets-keyed-by-identity", "common.APIReferenceCollector keys what it collects for objects", ct.Obj().Pos(), fmt.Sprintf("%d accesses to maps spanning the packages, none under RefType.String()", sites),
+			"the API-reference collector lists methods under RefType.String() ("+strings.Join(bad, "; ")+"): the Equals of `k8s.io` + `Pod` lands on docs/Reference/k8s/object-IoPod.md — adding an unrelated input changes a file of another package")
+	}
+	r.Count("object-deleting passes and collectors checked for joined keys", n)
+	r.Floor("object-deleting passes and collectors checked for joined keys", 5)
 }
